@@ -243,6 +243,7 @@ type blockRec struct {
 	NumTxs   int      `json:"num_txs"`
 	StateKey string   `json:"state_key"` // after commit
 	Order    string   `json:"order,omitempty"`
+	Slashes  int      `json:"slashes"` // double signers named in the certificate results
 }
 
 func headerNoTime(h *lib.BlockHeader) string {
